@@ -20,6 +20,14 @@ def run(tier, seed, ev):
                 obs.append((f"lock discipline on every path of {name} (N={n})", f"locks:{name}",
                             (lambda name, n: lambda ex: T.run_paths(ex, name, U, HU, T.c15_pred, "lock discipline", ["C15"], N=n))(name, n)))
         rc = mprop.run_m(PROP, tier, seed, ev, ex, obs, REPLAY_INJ, "replay_lock_order")
+        # cross-check on real interleavings: some thread is always enabled until all are done
+        import sprop
+        plans = [(("put", "remove"), 1, 2), (("put", "get"), 1, 2)] + ([(("put", "put"), 1, 2), (("remove", "delete_orphan"), 1, 1)] if tier == "thorough" else [])
+        rc_s = sprop.run_s(PROP, tier, seed, ev, ex, plans, accept=lambda role: role in ('deadlock', 'panic'), check_reads=False)
+        if rc_s == 1 or rc == 1:
+            rc = 1
+        else:
+            rc = max(rc, rc_s)
         ev.functions = ["every function reachable from: Transaction::commit, CasInner::{get,get_size,get_reader,get_range,remove,"
                         "remove_range,checkpoint,stats}, OrphanStats::{delete_orphan,delete_orphans,quarantine_orphans}, IntentGuard::drop "
                         "(MIR executed: Index::{apply_put_op,apply_remove_op,checkpoint,checkpoint_inner,apply_wal_op_unsafe,register_intent,"
